@@ -89,8 +89,12 @@ def run_symx(mod, mod_name, prop, args, seed):
     """run every symx cell of a harness module; returns (exit code, evidence dict)"""
     t0 = time.time()
     cells = mod.cells(args.tier, seed)
-    for c in cells:
+    # a few discharged queries per check are re-decided by cvc5 1.0 and z3 4.8 (every 4th cell in quick, every cell in
+    # thorough; 1 resp. 2 queries per chosen cell)
+    for i, c in enumerate(cells):
         c.setdefault('seed', seed)
+        if 'cross_check' not in c:
+            c['cross_check'] = (1 if i % 4 == 0 else 0) if args.tier == 'quick' else 2
     if args.cell:
         cells = [c for c in cells if fnmatch.fnmatchcase(c['id'], args.cell)]
     cells.sort(key=lambda c: -c.get('cost', 1))
@@ -128,6 +132,7 @@ def run_symx(mod, mod_name, prop, args, seed):
     boundary_only = []
     n_div = 0
     n_inc_known = 0
+    xcheck = {'queries': 0, 'cvc5': {}, 'z3-4.8': {}}
     tot = {'paths': 0, 'paths_ok': 0, 'aborted': 0, 'obligations': 0, 'discharged_ground': 0, 'discharged_solver': 0,
            'native_runs': 0, 'decisions': 0, 'roundings': 0, 'native_vacuous': 0}
     stats = {}
@@ -163,6 +168,14 @@ def run_symx(mod, mod_name, prop, args, seed):
             inconclusive.append({'cell': r['id'], 'why': 'exception not reproduced natively: ' + e['error'],
                                  'traceback': e['traceback']})
         n_div += len(r['divergences'])
+        xc = r.get('cross_check', {})
+        xcheck['queries'] += xc.get('queries', 0)
+        for name in ('cvc5', 'z3-4.8'):
+            for k, v in xc.get(name, {}).items():
+                xcheck[name][k] = xcheck[name].get(k, 0) + v
+        for dis in xc.get('disagreements', []):
+            inconclusive.append({'cell': r['id'], 'why': f"{dis['solver']} answers sat for a query that z3 5.1 discharged as unsat",
+                                 'query': dis['query'][:600]})
         boundary_only.extend(dict(b, cell=r['id']) for b in r.get('boundary_only', [])[:3])
         for inc in r['inconclusive'][:5]:
             inc = dict(inc)
@@ -225,7 +238,7 @@ def run_symx(mod, mod_name, prop, args, seed):
           f"known={len(known_hits)} inconclusive={len(inconclusive)} boundary_only={len(boundary_only)} wall={wall:.1f}s")
 
     ev = write_evidence(mod, prop, args.tier, seed, cells, tot, stats, functions, samples, outcomes, labels,
-                        violations, known_hits, inconclusive, wall, boundary_only, n_div)
+                        violations, known_hits, inconclusive, wall, boundary_only, n_div, xcheck)
     if violations:
         return EXIT_VIOLATION, ev
     if inconclusive:
@@ -234,7 +247,7 @@ def run_symx(mod, mod_name, prop, args, seed):
 
 
 def write_evidence(mod, prop, tier, seed, cells, tot, stats, functions, samples, outcomes, labels, violations,
-                   known_hits, inconclusive, wall, boundary_only=(), n_div=0):
+                   known_hits, inconclusive, wall, boundary_only=(), n_div=0, xcheck=None):
     disch = tot['discharged_ground'] + tot['discharged_solver']
     forks = stats.get('forks', 0)
     ev = {
@@ -271,6 +284,7 @@ def write_evidence(mod, prop, tier, seed, cells, tot, stats, functions, samples,
             'inconclusive': [{k: v for k, v in i.items() if k != 'traceback'} for i in inconclusive[:10]],
             'real_model_only_boundary_cases': list(boundary_only)[:10],
             'paths_where_float_run_took_another_branch': n_div,
+            'queries_re_decided_by_other_solvers': xcheck or {},
             'exhaustive': False,
         },
         'assumptions': list(getattr(mod, 'ASSUMPTIONS', [])) + COMMON_ASSUMPTIONS,
